@@ -30,7 +30,9 @@ func IsMustCompile(info *types.Info, call *ast.CallExpr) bool {
 	if fn == nil || fn.Pkg() == nil || fn.Pkg().Path() != "regexp" {
 		return false
 	}
-	return fn.Name() == "MustCompile" || fn.Name() == "Compile" || fn.Name() == "MustCompilePOSIX"
+	// the POSIX constructors parse another syntax (^ and $ are line anchors, leftmost-longest): a pattern compiled by them is
+	// not the language computed here — such a variable is not recognised, and the rule about it fails as undecided
+	return fn.Name() == "MustCompile" || fn.Name() == "Compile"
 }
 
 // isCompileWrapper: call of a function of the same package whose whole body is `return regexp.MustCompile(p)`, p being
